@@ -67,15 +67,29 @@ Definition fun1i2_heads : list string :=
   ["block"; "defpackage"; "dotimes"; "dolist"; "do"; "do*"; "do-all-symbols"; "do-external-symbols"; "do-symbols"; "dovector";
    "with-input-from-octets"; "with-zip-reader"; "with-zip-writer"; "with-input-from-string"; "with-open-file";
    "with-open-stream"; "with-output-to-string"; "with-standard-io-syntax"; "make-instance"].
+(* - a string in a documentation position of nested code is written by pp's Doc node (printer.go AppendDoc): it is
+     re-flowed at the margin, loses every '_' and is not escaped [C19-doc-string-mangled]; only a single plain word
+     survives every margin.  Documentation positions (over-approximated): any string argument of lambda, defun,
+     defmacro, defmethod, defwhopper, (:method ...), defvar, defparameter, defconstant and (:documentation ...). *)
+Definition doc_heads : list string :=
+  ["lambda"; "defun"; "defmacro"; "defmethod"; "defwhopper"; ":method"; "defvar"; "defparameter"; "defconstant"; ":documentation"].
+Fixpoint no_space (s : string) : bool :=
+  match s with EmptyString => true | String c r => negb (Nat.eqb (nat_of_ascii c) 32) && no_space r end.
+Definition doc_word_ok (s : string) : bool := doc_chars_ok s && no_space s.
+Definition str_args_ok (args : list obj) : bool :=
+  forallb (fun a => match a with Str s => doc_word_ok s | _ => true end) args.
 Fixpoint code_ok (top : bool) (f : obj) : bool :=
   match f with
   | L (Sym h :: args) =>
       if (h =? "quote")%string then true else
       (top || negb (existsb (String.eqb h) abs_layout_heads))
       && negb (existsb (String.eqb h) fun1i2_heads && match args with [] => true | _ => false end)
+      && (negb (existsb (String.eqb h) doc_heads) || str_args_ok args)
       && (fix go (l : list obj) : bool := match l with [] => true | a :: r => code_ok false a && go r end) args
   | L xs => (fix go (l : list obj) : bool := match l with [] => true | a :: r => code_ok false a && go r end) xs
-  | Lam _ _ body => (fix go (l : list obj) : bool := match l with [] => true | a :: r => code_ok false a && go r end) body
+  | Lam _ doc body =>
+      (top || doc_word_ok doc)
+      && (fix go (l : list obj) : bool := match l with [] => true | a :: r => code_ok false a && go r end) body
   | Dot xs _ | Vec xs _ _ | Arr _ xs _ _ =>
       (fix go (l : list obj) : bool := match l with [] => true | a :: r => code_ok false a && go r end) xs
   | Hash kvs => (fix go (l : list (obj * obj)) : bool := match l with [] => true | (_, w) :: r => code_ok false w && go r end) kvs
@@ -86,7 +100,7 @@ Fixpoint code_ok (top : bool) (f : obj) : bool :=
 Definition obs_meets_spec (v : obj) (r : robs) (equal : bool) (texts : list (N * tobs)) : bool :=
   match r with
   | ROk y => obj_eqb v y && (equal || has_lambda v)
-             && (if pp_guard texts && code_ok false v then texts_ok texts else texts_ok_lenient texts)
+             && (if pp_guard texts && code_ok true v then texts_ok texts else texts_ok_lenient texts)
   | _ => false
   end.
 
